@@ -986,7 +986,19 @@ fn stress_case(env: &mut Env, srt: &tokio::runtime::Runtime, rng: &mut Rng, idx:
             false
         }
     });
-    srt.block_on(async { tokio::time::sleep(Duration::from_millis(2)).await });
+    srt.block_on(async {
+        tokio::time::sleep(Duration::from_millis(2)).await;
+        // the join handle completes before the supervisor has WORKED OFF the terminal event it was sent:
+        // wait (bounded) until it shows up instead of trusting the 2 ms above on a loaded machine
+        if exited {
+            for _ in 0..3000 {
+                if events.lock().unwrap().iter().any(|e: &String| e.starts_with("Terminated") || e.starts_with("Failed")) {
+                    break;
+                }
+                tokio::time::sleep(Duration::from_millis(1)).await;
+            }
+        }
+    });
     let mut all = recs.lock().unwrap().clone();
     all.extend(shared.self_recs.lock().unwrap().iter().cloned());
     all.sort_by_key(|r| r.0);
@@ -1081,7 +1093,9 @@ fn main() {
             replay_file(&mut env, f);
         }
     }
-    if args.u64("only-replay", 0) == 0 {
+    // `--stress-only 1`: only the free-running cases (used for the async-std backend, package hcoreas)
+    let stress_only = args.u64("stress-only", 0) != 0;
+    if args.u64("only-replay", 0) == 0 && !stress_only {
         // fixed cases first: the shape of `drain_defers_marker_for_reentrant_admitted_send`
         // and a sender overtaken by the drain between its status check and its admission
         let fixed: Vec<Vec<Vec<Op>>> = vec![
